@@ -119,8 +119,9 @@ func (w wWidth) enc() string {
 }
 
 type wLeaf struct {
-	Kind string `json:"kind"` // image divider text
-	E    wEdges `json:"e"`    // its own padding (border unused)
+	Kind string `json:"kind"` // image divider text imagew (explicit pixel width W) carousel
+	W    int    `json:"w,omitempty"`
+	E    wEdges `json:"e"` // its own padding; Border = the image's own border (narrows the default width on both sides)
 	// attributes that select other markup paths but have nothing to do with widths (alignment, links, colours): not part of the
 	// Model's input, so any influence on a width shows as a disagreement
 	Look string `json:"look,omitempty"`
@@ -129,7 +130,11 @@ type wLeaf struct {
 func (l wLeaf) mjml(id string) string {
 	switch l.Kind {
 	case "image":
-		return fmt.Sprintf(`<mj-image src="i.png" alt="leaf%s"%s%s/>`, id, l.E.padAttr(), l.Look)
+		return fmt.Sprintf(`<mj-image src="i.png" alt="leaf%s"%s%s%s/>`, id, l.E.padAttr(), l.E.borderAttr(), l.Look)
+	case "imagew":
+		return fmt.Sprintf(`<mj-image src="i.png" alt="leaf%s" width="%dpx"%s%s/>`, id, l.W, l.E.padAttr(), l.Look)
+	case "carousel":
+		return fmt.Sprintf(`<mj-carousel thumbnails="hidden"><mj-carousel-image src="c.png" alt="leaf%s"/></mj-carousel>`, id)
 	case "divider":
 		return fmt.Sprintf(`<mj-divider css-class="leaf%s"%s%s/>`, id, l.E.padAttr(), l.Look)
 	}
@@ -146,7 +151,11 @@ func (l wLeaf) enc() string {
 	a, b := l.E.lr(25, 25) // mj-image / mj-divider default padding: 10px 25px
 	switch l.Kind {
 	case "image":
-		return fmt.Sprintf("i%d,%d", a, b)
+		return fmt.Sprintf("i%d,%d", a+l.E.Border, b+l.E.Border) // its own border narrows it on both sides
+	case "imagew":
+		return fmt.Sprintf("w%d,%d,%d", a, b, l.W)
+	case "carousel":
+		return "k"
 	case "divider":
 		return fmt.Sprintf("d%d,%d", a, b)
 	}
@@ -157,10 +166,45 @@ type wCol struct {
 	W    wWidth `json:"w"`
 	E    wEdges `json:"e"`
 	Leaf wLeaf  `json:"leaf"`
+	// where the column's padding / border attributes are written: "" on the element, "class" in an mj-class the column names,
+	// "tag" as the mj-column default of mj-attributes (single-column documents only).  The Model sees the same values either way.
+	Src string `json:"src,omitempty"`
 }
 
 func (c wCol) mjml(id string) string {
-	return fmt.Sprintf(`<mj-column css-class="c%s"%s%s%s>%s</mj-column>`, id, c.W.attr(), c.E.padAttr(), c.E.borderAttr(), c.Leaf.mjml(id))
+	edges := c.E.padAttr() + c.E.borderAttr()
+	switch c.Src {
+	case "class":
+		edges = ` mj-class="kc` + id + `"`
+	case "tag":
+		edges = ""
+	}
+	return fmt.Sprintf(`<mj-column css-class="c%s"%s%s>%s</mj-column>`, id, c.W.attr(), edges, c.Leaf.mjml(id))
+}
+
+// headFor: the mj-attributes entries that carry the edges of columns whose Src is not the element itself
+func (d *wDoc) headFor() string {
+	var b strings.Builder
+	add := func(c wCol, id string) {
+		switch c.Src {
+		case "class":
+			fmt.Fprintf(&b, `<mj-class name="kc%s"%s%s/>`, id, c.E.padAttr(), c.E.borderAttr())
+		case "tag":
+			fmt.Fprintf(&b, `<mj-column%s%s/>`, c.E.padAttr(), c.E.borderAttr())
+		}
+	}
+	for i, it := range d.Items {
+		if it.Col != nil {
+			add(*it.Col, strconv.Itoa(i))
+		}
+		for j, c := range it.Cols {
+			add(c, fmt.Sprintf("%d_%d", i, j))
+		}
+	}
+	if b.Len() == 0 {
+		return ""
+	}
+	return "<mj-head><mj-attributes>" + b.String() + "</mj-attributes></mj-head>"
 }
 func (c wCol) enc() string { return "c:" + c.W.enc() + ":" + c.E.enc(0, 0) + ":" + c.Leaf.enc() }
 
@@ -181,7 +225,7 @@ type wDoc struct {
 
 func (d *wDoc) mjml() string {
 	var b strings.Builder
-	b.WriteString("<mjml><mj-body")
+	b.WriteString("<mjml>" + d.headFor() + "<mj-body")
 	if d.Body != 600 {
 		fmt.Fprintf(&b, ` width="%dpx"`, d.Body)
 	}
@@ -436,16 +480,31 @@ func genWidth(r *Rng) wWidth {
 }
 
 func genWLeaf(r *Rng) wLeaf {
-	l := wLeaf{Kind: r.Pick([]string{"image", "divider", "text"})}
-	if r.Bool(1, 3) {
+	l := wLeaf{Kind: r.Pick([]string{"image", "image", "divider", "divider", "text", "text", "imagew", "carousel"})}
+	if r.Bool(1, 3) && l.Kind != "carousel" {
 		l.E = genEdges(r, wForms, 0)
 	}
-	l.Look = r.Pick(leafLooks[l.Kind])
+	switch l.Kind {
+	case "image":
+		if r.Bool(1, 4) {
+			l.E.Border = []int{1, 2, 5}[r.Intn(3)]
+		}
+		l.Look = r.Pick(leafLooks[l.Kind])
+	case "imagew":
+		l.W = []int{40, 100, 250, 400, 900}[r.Intn(5)]
+	case "carousel":
+	default:
+		l.Look = r.Pick(leafLooks[l.Kind])
+	}
 	return l
 }
 
 func genCol(r *Rng) wCol {
-	return wCol{W: genWidth(r), E: genEdges(r, wForms, 2), Leaf: genWLeaf(r)}
+	c := wCol{W: genWidth(r), E: genEdges(r, wForms, 2), Leaf: genWLeaf(r)}
+	if r.Bool(1, 4) {
+		c.Src = "class"
+	}
+	return c
 }
 
 func widthDocs(tier string, seed int64) []*wDoc {
@@ -509,6 +568,26 @@ func widthDocs(tier string, seed int64) []*wDoc {
 			docs = append(docs, &wDoc{Body: body, Sec: plain, Items: two(wWidth{"p", 3333, 100}, wWidth{Kind: "a"})})
 			docs = append(docs, &wDoc{Body: body, Sec: plain, Items: two(wWidth{"x", 150, 1}, wWidth{Kind: "a"})})
 			docs = append(docs, &wDoc{Body: body, Sec: plain, Items: []wItem{{Group: &wWidth{Kind: "a"}, Cols: []wCol{{W: wWidth{"p", 25, 1}, Leaf: wLeaf{Kind: leaf}}, {W: wWidth{Kind: "a"}, Leaf: wLeaf{Kind: leaf}}}}}})
+		}
+	}
+	// images with their own border, images with an explicit width below / above what the column leaves, carousels; and the
+	// column's edges written on the element, in an mj-class, or as the tag default
+	for _, body := range []int{600, 480} {
+		for _, src := range []string{"", "class", "tag"} {
+			for _, e := range []wEdges{{}, {Border: 4}, {BorderL: 3}, {PadForm: "2", Pad: [4]int{0, 20, 0, 20}}, {PadForm: "sides", Pad: [4]int{0, 10, 0, 30}, Border: 2}} {
+				for _, lf := range []wLeaf{{Kind: "image"}, {Kind: "divider"}, {Kind: "image", E: wEdges{Border: 2}}, {Kind: "image", E: wEdges{Border: 5, PadForm: "1", Pad: [4]int{10, 10, 10, 10}}},
+					{Kind: "imagew", W: 100}, {Kind: "imagew", W: 900}, {Kind: "imagew", W: 260, E: wEdges{PadForm: "2", Pad: [4]int{0, 40, 0, 40}}}, {Kind: "carousel"}} {
+					docs = append(docs, &wDoc{Body: body, Sec: plain, Items: []wItem{{Col: &wCol{W: wWidth{Kind: "a"}, E: e, Leaf: lf, Src: src}}}})
+					if src != "tag" {
+						docs = append(docs, &wDoc{Body: body, Sec: plain, Items: []wItem{{Col: &wCol{W: wWidth{Kind: "a"}, E: e, Leaf: lf, Src: src}}, {Col: &wCol{W: wWidth{Kind: "a"}, Leaf: wLeaf{Kind: "text"}}}}})
+						docs = append(docs, &wDoc{Body: body, Wrapper: &wEdges{PadForm: "2", Pad: [4]int{0, 30, 0, 30}}, Sec: plain, Items: []wItem{{Group: &wWidth{Kind: "a"}, Cols: []wCol{{W: wWidth{Kind: "a"}, E: e, Leaf: lf, Src: src}, {W: wWidth{Kind: "a"}, Leaf: wLeaf{Kind: "text"}}}}}})
+					}
+				}
+			}
+		}
+		for _, lf := range []wLeaf{{Kind: "imagew", W: 100}, {Kind: "imagew", W: 900}, {Kind: "carousel"}, {Kind: "image", E: wEdges{Border: 3}}} {
+			docs = append(docs, &wDoc{Body: body, Hero: true, Sec: plain, Leaves: []wLeaf{lf}})
+			docs = append(docs, &wDoc{Body: body, Hero: true, Sec: wEdges{PadForm: "2", Pad: [4]int{0, 50, 0, 50}}, Leaves: []wLeaf{lf, {Kind: "divider"}}})
 		}
 	}
 	// every cosmetic look of every leaf kind, alone in a column (which selects the single-column markup paths) and next to a
@@ -721,7 +800,7 @@ func checkWidthDoc(res *Result, drv *DriverPool, d *wDoc, html string, sample bo
 }
 
 func runC10(res *Result, tier string, seed int64, replay string) {
-	res.Rule = "width documents: body width {600,500,480,640,700} × optional wrapper × (section with 1–4 children: columns or groups of 1–3 columns; automatic / integer and fractional percentages / pixel widths | hero with images and dividers), every box with padding written in every form (absent, 1/2/3/4-value shorthand, per-side attributes alone and overriding a shorthand) and borders (all sides, border-left override); images and dividers without explicit width, with their own paddings; first one feature at a time from a plain base (exhaustive list), then seeded combinations. Widths are scraped from the real output with the Lean lexer (wrapper / section max-width, Outlook td width per column and group, Outlook cells of columns inside groups, img width, divider Outlook table width) and compared (1) with the Model `Widths.impl` (driver `width`) exactly — the correspondence — and (2) with the Spec `Widths.spec` (driver `widthspec`, exact rationals): |Δ| < 1 px per rounding step, plus the sibling-sum clause. Non-trivial = padding/border/wrapper/hero/group somewhere or ≥2 columns; distinct by source"
+	res.Rule = "width documents: body width {600,500,480,640,700} × optional wrapper × (section with 1–4 children: columns or groups of 1–3 columns; automatic / integer and fractional percentages / pixel widths | hero with images and dividers), every box with padding written in every form (absent, 1/2/3/4-value shorthand, per-side attributes alone and overriding a shorthand) and borders (all sides, border-left override); images and dividers without explicit width, with their own paddings (images also with their own border), images with an explicit width below and above what the column leaves, carousels; the column's padding / border written on the element, in an mj-class or as the mj-column default; first one feature at a time from a plain base (exhaustive list), then seeded combinations. Widths are scraped from the real output with the Lean lexer (wrapper / section max-width, Outlook td width per column and group, Outlook cells of columns inside groups, img width, divider Outlook table width) and compared (1) with the Model `Widths.impl` (driver `width`) exactly — the correspondence — and (2) with the Spec `Widths.spec` (driver `widthspec`, exact rationals): |Δ| < 1 px per rounding step, plus the sibling-sum clause. Non-trivial = padding/border/wrapper/hero/group somewhere or ≥2 columns; distinct by source"
 	drv, err := startDriverPool(8)
 	if err != nil {
 		res.Disagree(Violation{Sig: "driver-missing", What: err.Error()})
